@@ -494,6 +494,60 @@ def _no_returns(body):
     return b
 
 
+def _returns_as(body, mk):
+    """the statements of a value-returning helper with every `return E;` turned into mk(E) (an assignment to the variable that receives the result) and the
+    early exits turned into nesting, or None when a return is not in tail position (inside a loop, a switch, ...) or a path returns nothing."""
+    def is_ret(x):
+        return isinstance(x, dict) and x.get('k') == 'ReturnStmt' and x.get('c')
+
+    def has_ret(x):
+        return any(y.get('k') == 'ReturnStmt' for y in _walk_nolambda(x))
+
+    def conv(stmts):
+        out = []
+        for i, st in enumerate(stmts):
+            if is_ret(st):
+                return out + [mk(st['c'][0])]
+            sl = st.get('slots') or {}
+            if st.get('k') == 'IfStmt' and has_ret(st):
+                if has_ret(sl.get('cond') or {}) or sl.get('init') is not None and has_ret(sl['init']):
+                    return None
+                t, e = sl.get('then'), sl.get('else')
+                ts = list(t.get('c') or ()) if isinstance(t, dict) and t.get('k') == 'CompoundStmt' else ([t] if t is not None else [])
+                es = list(e.get('c') or ()) if isinstance(e, dict) and e.get('k') == 'CompoundStmt' else ([e] if e is not None else [])
+                rest = stmts[i + 1:]
+                n = dict(st)
+                n['slots'] = dict(sl)
+                t_ret = any(has_ret(x) for x in ts)
+                e_ret = any(has_ret(x) for x in es)
+                # an arm that returns must end by returning; the other arm continues with the rest
+                tc = conv(ts) if t_ret else None
+                ec = conv(es) if e_ret else None
+                if (t_ret and tc is None) or (e_ret and ec is None):
+                    return None
+                rc = None
+                if not (t_ret and e_ret):
+                    rc = conv(rest)
+                    if rc is None:
+                        return None
+                n['slots']['then'] = {'k': 'CompoundStmt', 'c': tc if t_ret else ts + rc, 'loc': (t or st).get('loc')}
+                n['slots']['else'] = {'k': 'CompoundStmt', 'c': ec if e_ret else es + rc, 'loc': (e or st).get('loc')}
+                n['returns_eliminated'] = True
+                return out + [n]
+            if has_ret(st):
+                return None
+            out.append(st)
+        return None
+    if body is None or body.get('k') != 'CompoundStmt':
+        return None
+    r = conv(list(body.get('c') or ()))
+    if r is None:
+        return None
+    b = dict(body)
+    b['c'] = r
+    return b
+
+
 def _single_return_expr(body):
     if body is None or body.get('k') != 'CompoundStmt':
         return None
@@ -558,6 +612,12 @@ def inline_helpers(functions, inventory, root):
                 x = x['c'][0]
             if x.get('k') in ('CXXMemberCallExpr', 'CallExpr') and x.get('callee') in new:
                 call, mode = x, 'init'
+        if call is None and k == 'BinaryOperator' and s.get('op') == '=' and len(s.get('c') or ()) == 2 and s['c'][0].get('k') == 'DeclRefExpr' and s['c'][0].get('local'):
+            x = s['c'][1]
+            while isinstance(x, dict) and x.get('k') == 'CXXConstructExpr' and len(x.get('c') or ()) == 1:
+                x = x['c'][0]
+            if isinstance(x, dict) and x.get('k') in ('CXXMemberCallExpr', 'CallExpr') and x.get('callee') in new:
+                call, mode = x, 'assign'
         if call is None and k == 'IfStmt' and not (s.get('slots') or {}).get('else') and not (s.get('slots') or {}).get('init'):
             # `if (!h(args)) return false;` where h answers false on its early exits and true only at its very end: the body of h with its last
             # `return true;` dropped does exactly that
@@ -623,10 +683,39 @@ def inline_helpers(functions, inventory, root):
         if mode == 'tail':
             count += 1
             return [_param_subst(body, params, args)]
+        if mode == 'assign':
+            # `x = h(args);`: the body of h with every `return E;` turned into `x = E;`
+            def mk(e, s=s):
+                a = dict(s)
+                a.pop('id', None)
+                a['c'] = [s['c'][0], e]
+                return a
+            b2 = _returns_as(body, mk)
+            if b2 is None:
+                return None
+            count += 1
+            return [_param_subst(b2, params, args)]
         if mode == 'init':
             top = list(body.get('c') or ())
             if len(rets) != 1 or not top or top[-1] is not rets[0] or not rets[0].get('c'):
-                return None
+                # several returns: `T x = h(args);` is `T x; <x = E at every return of h>` when the returns are in tail position (scalars / pointers only)
+                vd = s['c'][0]
+                tt = (vd.get('t') or '').replace('const ', '')
+                if not (tt.rstrip().endswith('*') or tt in ('bool', 'int', 'long', 'unsigned long', 'double', 'unsigned short', 'smt::lit')) or vd.get('bindings'):
+                    return None
+                ref = {'k': 'DeclRefExpr', 'c': [], 'ref': vd.get('name'), 'refk': 'Var', 'local': True, 'dloc': vd.get('loc'), 'loc': vd.get('loc'), 't': vd.get('t')}
+
+                def mk2(e, ref=ref, s=s):
+                    return {'k': 'BinaryOperator', 'op': '=', 'c': [dict(ref), e], 't': ref.get('t'), 'loc': s.get('loc'), 'end': s.get('end')}
+                b2 = _returns_as(body, mk2)
+                if b2 is None:
+                    return None
+                nd = dict(vd)
+                nd['init'] = None
+                ns = dict(s)
+                ns['c'] = [nd]
+                count += 1
+                return [ns, _param_subst(b2, params, args)]
             pre = {'k': 'CompoundStmt', 'c': top[:-1], 'loc': body.get('loc')}
             pre = _param_subst(pre, params, args)
             e = _param_subst(rets[0]['c'][0], params, args)
